@@ -12,6 +12,7 @@ import (
 	"verifharness/internal/appstream"
 	"verifharness/internal/commitstream"
 	"verifharness/internal/evmsyncstream"
+	"verifharness/internal/inputstream"
 	"verifharness/internal/ledgerstream"
 	"verifharness/internal/rlpstream"
 	"verifharness/internal/signerstream"
@@ -74,6 +75,8 @@ func main() {
 		res = ledgerstream.Run(*seed, *tier, wd, *driver, rp)
 	case "app":
 		res = appstream.Run(*seed, *tier, wd, *driver, rp, appstream.Config{Prop: *prop, Restarts: *restarts, CheckTx: *checktx, Queries: *queries, Known: *known, Replicas: *replicas, EVM: *evm})
+	case "inputs":
+		res = inputstream.Run(*seed, *tier, wd, *driver, rp)
 	case "signer":
 		res = signerstream.Run(*seed, *tier, wd, *driver, rp)
 	case "rlp":
